@@ -4,3 +4,4 @@ import GradysModel.Mobility
 import GradysModel.Geo
 import GradysModel.Camera
 import GradysModel.Sim
+import GradysModel.Heap
